@@ -19,7 +19,7 @@ func init() {
 			"RESEND the client's resend loop runs i from 0 while i <= latest - offset and i/8 < 504; for a clear bit it loads slot offset+i from its history, skips it iff the load failed or the value is below 2, and otherwise sends (offset+i, uint64(int32(value))) through the one sender function; " +
 			"so what is re-sent is a function of the server's bitfield and the local history only, independent of which datagrams or earlier syncs were lost; CHAIN the original path stores uint32(E) and sends E, the resend path sends uint64(int32(stored)): composed, this is the identity for every E that is the sign extension of a 32-bit value " +
 			"(evaluated on the boundary cells of that domain), so a retransmission is byte-identical to the original (same sender, same signing bytes; deterministic signing is trusted); WRITE-ONCE the history the retransmission is read from never changes a stored reading (the rule of C09, re-run); IDEMPOTENT the server ignores an identical replay (C02's ABSORB rule, re-checked). " +
-			"NOT decided: the fault-sequence quantifier itself (which datagrams are lost, which sync attempts fail), timing and 'eventually'; readings outside the signed 32-bit range (outside the property's stated domain).",
+			"every edge that leaves the resend loop is one of its two range conditions failing (no cap, break or return inside it); the reply layout rule of C10 (offset and bitfield read where and how the server writes them) is re-run. NOT decided: the fault-sequence quantifier itself (which datagrams are lost, which sync attempts fail), timing and 'eventually'; readings outside the signed 32-bit range (outside the property's stated domain).",
 		Assumptions: append([]string{"glow.Sign is deterministic (RFC 6979, trusted)", "UDP delivers a datagram unchanged or not at all"}, baseAssumptions...),
 		Run:         runC08,
 	})
@@ -222,6 +222,55 @@ func runC08(c *an.Ctx) {
 			}
 		}
 		c.Check(ok && nSt > 0, "IDEMPOTENT", integ, integ.Pos(), an.KeyOf(integ, "replay-noop"), "on the server an identical retransmission changes nothing (every state change of the integrator is dominated by slot != report), so recovery can never ban the device's own slot", fmt.Sprintf("%d stores checked", nSt))
+	}
+	// the resend loop runs to the end of its range: no break or return inside it (a cap on retransmissions would
+	// leave later slots unrecovered while the round still counts as a success)
+	if l := innermostLoopOf(fn, site.Block()); l != nil {
+		// every edge that leaves the loop is one of its two range conditions failing
+		okExits := true
+		where := ""
+		nEx := 0
+		for _, u := range fn.Blocks {
+			if !l.body[u] {
+				continue
+			}
+			for _, v := range u.Succs {
+				if l.body[v] {
+					continue
+				}
+				nEx++
+				isRange := false
+				for _, f := range fi.EdgeFacts(u, v) {
+					t := f.T
+					if f.Neg || t.K != an.KBin {
+						continue
+					}
+					// last < i   or   504 <= i/8
+					if t.S == "<" && t.A[1].Key() == iT.Key() {
+						isRange = true
+					}
+					if t.S == "<=" && isConstTerm(t.A[0], "504") && strings.Contains(t.A[1].Key(), iT.Key()) {
+						isRange = true
+					}
+				}
+				if !isRange {
+					okExits = false
+					for _, in := range u.Instrs {
+						if in.Pos().IsValid() {
+							where = p.Pos(in.Pos())
+						}
+					}
+				}
+			}
+		}
+		c.Check(okExits && nEx > 0, "RESEND", fn, site.Pos(), key("no-early-exit"), "the resend loop is left only when its range is exhausted (i > latest - offset, or the end of the bitfield): no other break or return, e.g. a cap on retransmissions", "exit near "+where)
+	} else {
+		c.Undecided("RESEND", fn, site.Pos(), key("no-early-exit"), "the resend site is not inside a loop", "shape not recognised")
+	}
+	// the window offset and the bitfield are read from the reply at the positions and in the byte order the server
+	// writes them (layout rule owned by C10, re-run: a misread offset makes every later window unrecoverable)
+	if parser != nil {
+		replyLayout(c, parser, nil)
 	}
 	c.Count("RESEND", 8)
 	// the history a retransmission is read from is write-once (rule owned by C09, re-run here:
